@@ -674,6 +674,11 @@ class NF:
                     else:
                         v = ("ifelse", c, val, v)
                 return v
+            if len(arms) == 2 and e["arms"][0].get("guard") and not e["arms"][1].get("guard") and _catch_all(e["arms"][1]["pat"]):
+                # `match v { P(x) if g(x) => a, _ => b }` is `if let P(x) = v && g(x) { a } else { b }`
+                env_a = env.child()
+                bind_pattern(e["arms"][0]["pat"], scrut, env_a)
+                return ("ifelse", ("binop", "And", ("islet", arms[0][0], scrut), self.nf(e["arms"][0]["guard"], env_a)), arms[0][1], arms[1][1])
             if len(arms) == 2 and not any(a.get("guard") for a in e["arms"]):
                 # `match opt { Some(x) => a, None => b }` is `if let Some(x) = opt { a } else { b }`
                 labels = [l for l, _ in arms]
@@ -1178,6 +1183,16 @@ def _concrete_type_of(e):
     return t
 
 
+def _conjuncts(cond):
+    """the conditions that hold on the branch where `cond` does: `if let Some(x) = opt.filter(p)` is taken when `opt` is Some and p
+    holds of what it holds"""
+    if isinstance(cond, tuple) and cond[0] == "islet" and str(cond[1]).startswith("Some(") and isinstance(cond[2], tuple) \
+            and cond[2][0] == "call" and cond[2][1] == "Option::filter" and len(cond[2][2]) == 2:
+        inner = ("islet", cond[1], cond[2][2][0])
+        return _conjuncts(inner) + (("alt", nf_simplify(cond[2][2][1]), True),)
+    return (("alt", cond, True),)
+
+
 def _plain_local(e):
     e = H.strip(e)
     while e.get("k") == "AddrOf" or (e.get("k") == "Unary" and e.get("op") == "Deref"):
@@ -1372,6 +1387,7 @@ def normalize_lines(events):
             out.append(ev)
             i += 1
     out = [ev for ev in out if ctx_feasible(ev.ctx)]
+    out = [ev for ev in out if ev.kind != "emit" or any(p[0] != "lit" or p[1] != "" for p in ev.parts)]     # writing "" writes nothing
     for ev in out:
         ev.ctx = tuple(c for c in ev.ctx if not _constant_true(c))
     out = _zip_branches(out)
@@ -1613,7 +1629,8 @@ class Extractor:
         if not names or len(names) != len(ga):
             return {}
         generic_here = re.compile(r"^[A-Z]\w{0,2}$")
-        return {n: g for n, g in zip(names, ga) if not n.startswith("'") and g != n and not generic_here.match(g) and not g.startswith("'") and "impl " not in g}
+        return {n: g for n, g in zip(names, ga) if not n.startswith("'") and g != n and not generic_here.match(g) and not g.startswith("'") and "impl " not in g
+                and "dyn " not in g and "io::Write" not in g and "fmt::Write" not in g and "Formatter" not in g and "std::vec::Vec<u8>" not in g}      # (the sink's type is no property of the text)
 
     def _string_sink_index(self, path):
         """index of the `&mut String` parameter through which a writer function appends (None when its sink is a real writer)"""
@@ -1933,7 +1950,7 @@ class Extractor:
                 cond = ("islet", pat_label(c["pat"]), base)
             else:
                 cond = self.NF.nf(c, env)
-            self._visit(fn, e["then"], env_t, ctx + (("alt", cond, True),), out, how)
+            self._visit(fn, e["then"], env_t, ctx + _conjuncts(cond), out, how)
             if e.get("else"):
                 self._visit(fn, e["else"], env, ctx + (("alt", cond, False),), out, how)
             return
@@ -2412,6 +2429,8 @@ def nf_simplify(n):
         same, other = (n[2], n[3]) if n[1][1] == "Eq" else (n[3], n[2])
         if {_through_identity(same), _through_identity(other)} == {a_, b_} and a_ != b_:
             return other
+    if n and n[0] == "payload" and n[1] == "Some" and isinstance(n[2], tuple) and n[2][0] == "call" and n[2][1] == "Option::filter" and len(n[2][2]) == 2:
+        return nf_simplify(("payload", "Some", n[2][2][0]))      # what `opt.filter(p)` holds, where it holds something, is what `opt` holds
     if n and n[0] == "payload" and n[1] == "Some" and isinstance(n[2], tuple) and n[2][0] == "ifelse":
         ov = _opt_view(n[2])
         if ov is not None and ov[0] is not True:
@@ -2642,6 +2661,7 @@ class CallExpander:
         self.NF = NF(F)
         self.cache = {}
         self.general_matches = general_matches    # also take in helpers that dispatch with a general `match` (for evaluation)
+        self.keep = set()                         # paths of functions that stay calls (what a rule wants to find / bind)
 
     def const_text(self, path):
         for c in self.F.lib.items.get("consts", []):
@@ -2884,7 +2904,7 @@ class CallExpander:
             args = tuple(self.expand(a, depth) for a in n[2])
             if len(n) > 3:
                 return ("call", n[1], args) + tuple(n[3:])   # explicit type arguments: what it yields depends on them; kept as a call
-            s = self.summary(n[1])
+            s = self.summary(n[1]) if n[1] not in self.keep else None
             if s is not None and len(s[0]) == len(args):
                 return self.expand(nf_subst(s[1], dict(zip(s[0], args))), depth + 1)
             return ("call", n[1], args)
@@ -3014,6 +3034,8 @@ def _canon_hole(p, CE, limit):
     nf, tr = p[1], p[2]
     ty = p[3] if len(p) > 3 else "?"
     if tr != "display" or not isinstance(nf, tuple):
+        if isinstance(nf, tuple):
+            p = ("hole", nf_simplify(nf)) + tuple(p[2:])
         return [([p], ())]
     e = CE.expand(nf) if CE is not None else nf
     if CE is not None and ty and "::" in ty:
